@@ -41,16 +41,17 @@ Print Assumptions C01_refuted.
 
 (* the general theorem available for the value side (all depths, all operand values): see props/C02.v *)
 Theorem C01_expressions_partial :
-  forall (cfg : config) (rw : regwidth) (E : cenv) (csub : csubs) xi V e st,
-  cfg_params cfg = [] -> st_vars st = V -> pfrag V e ->
+  forall (cfg : config) (rw : regwidth) (IM : string -> bool) (E : cenv) (csub : csubs) xi V e st,
+  cfg_params cfg = [] -> lst_ok IM V st -> pfrag rw IM V e ->
   lower_expr cfg e st = lower_expr (with_fx all_fixes cfg) e st ->
-  exists pv st', lower_expr cfg e st = OK (IPure pv, st') /\ st_same st st' /\
-    forall cs ms, rel V cs ms ->
-      exists ilv, eval rw ms [] (pv_term pv) = Some ilv /\ shape_pv pv ilv /\
+  exists pv st', lower_expr cfg e st = OK (IPure pv, st') /\ st_ext st st' /\ lst_ok IM V st' /\
+    forall R rem, regs_le (st_regs st') R -> norem rem ->
+    forall cs ms, rel IM E V cs ms -> imms_done IM (st_imms st') ms ->
+      exists ilv, eval rw ms [] (fin_pure R rem (pv_term pv)) = Some ilv /\ shape_pv pv ilv /\
         forall fuel cs' cv, ceval E csub xi fuel cs e = Some (cs', cv) -> cs' = cs /\ agrees pv cv ilv.
 Proof.
-  intros cfg rw E csub xi V e st Hp HV Hf Heq. rewrite Heq.
-  apply (expr_correct_unconditional (with_fx all_fixes cfg) rw E csub xi V e st); auto.
+  intros cfg rw IM E csub xi V e st Hp HV Hf Heq. rewrite Heq.
+  apply (expr_correct_unconditional (with_fx all_fixes cfg) rw IM E csub xi V e st); auto.
 Qed.
 Print Assumptions C01_expressions_partial.
 
